@@ -140,6 +140,8 @@ def g_op(h, op):
     if k == 5:
         return "OIbtp (Build_ibtp %d %d %d 0 0%%Z None %d) %s" % (op[1], op[2], op[3], op[4], pk)
     if k == 6:
+        if not svc_ok_for_proof(h, op[1]):      # the proof pool rejects it before the contract is reached
+            return "OIbtp (Build_ibtp %d %d %d 0 (%d)%%Z None 0) false" % (op[1], op[2], op[3], op[4])
         return "OCall 9 %d %d %d 0" % (op[1], op[2], op[3])
     raise ValueError(op)
 
